@@ -77,7 +77,8 @@ def render(dirs, lay):
                 out.extend(txt)
             else:
                 out.extend(b"/*")
-                txt = b" " + a + b" "
+                # padded, or tight (the text may then end in asterisks right before the closing */)
+                txt = (b" " + a + b" ") if (rng.random() < 0.6 or not a) else a
                 exp.append(("A", len(out), len(out) + len(txt) - 1, txt))
                 out.extend(txt)
                 out.extend(b"*/")
@@ -141,7 +142,8 @@ def gen_lexical_doc(rng, n=None):
     kws_nobody = ["URL", "GET", "POST", "INFO", "SERVER", "MACRO", "PASTE", "TAG", "Tags", "Title", "Version",
                   "BaseUrl", "Protocol", "Method", "OperationId", "JSIGHT", "PUT", "PATCH", "DELETE"]
     params = [b"/a", b"/a/{id}", b"@t", b"x", b"0.3", b"json-rpc-2.0", b"a-b_c", b"@tag1", b"/p/q.r", b"q=1&r=2", b"any"]
-    annots = [None, None, "note", "a b  c", "x # not a comment?", "slash / inside", "star * inside"]
+    annots = [None, None, "note", "a b  c", "x # not a comment?", "slash / inside", "star * inside",
+              "note *", "*", "**", "* boxed *", "a ** b", "x*", "/ y", "é ü 漢"]
     dirs = []
     for _ in range(n or rng.randint(1, 6)):
         r = rng.random()
